@@ -91,8 +91,12 @@ def run(tier, rep):
         _report(rep, "wide_d0_all_histories", out_w, 0)
         out_d = explore_many(pool, deep, bound, JUDGE)
         _report(rep, "deep_G1", out_d, bound)
-        out_g = explore_many(pool, g2, 1 if tier == "thorough" else 0, JUDGE)
-        _report(rep, "G2_line_level", out_g, 1 if tier == "thorough" else 0)
+        g2_small = {k: v for k, v in g2.items() if k[0] == "L0"} if tier == "quick" else g2
+        out_g = explore_many(pool, g2_small, 1, JUDGE)
+        _report(rep, "G2_line_level", out_g, 1)
+        if tier == "quick":
+            out_g0 = explore_many(pool, {k: v for k, v in g2.items() if k[0] != "L0"}, 0, JUDGE)
+            _report(rep, "G2_line_level_d0", out_g0, 0)
     some = list(deep.items())[:2]
     for k, j in some:
         rep.sample(dict(job=":".join(map(str, k)), user=j["user"], spec=j["spec"]))
